@@ -10,7 +10,7 @@ from hypothesis import strategies as st
 from vf import cfgref
 
 TERMS = ["a", "b", "c", "d"]
-NTS = ["S", "A", "B", "C"]
+NTS = ["S", "A", "B", "C", "D"]
 UNDEF = "U"  # a nonterminal without rules (low rate)
 
 BODY_LEN = [0] * 15 + [1] * 35 + [2] * 35 + [3] * 12 + [4] * 3
@@ -18,6 +18,11 @@ BODY_LEN = [0] * 15 + [1] * 35 + [2] * 35 + [3] * 12 + [4] * 3
 
 def F(x):
     return str(Fraction(x))
+
+
+def size(tier):
+    "grammar size bounds per tier: the thorough tier also explores 5 nonterminals / 10 rules"
+    return {"max_nt": 5, "max_rules": 10} if tier == "thorough" else {}
 
 
 # ---------------------------------------------------------------------------------------------
